@@ -1,13 +1,27 @@
 #!/bin/sh
 # usage: try_mutant.sh <patch> <prop> [tier]  -- applies a patch to /repo, runs the check, reverts.
+# With TRY_MUTANT_WT=1 the patch is applied to a scratch worktree of /repo instead (VERIF_REPO), so that
+# other checks running against /repo at the same time are not disturbed.
 P=$(realpath $1); PROP=$2; TIER=${3:-quick}
-cd /repo || exit 2
-git diff --quiet || { echo "/repo has uncommitted changes"; exit 2; }
-git apply "$P" || { echo "patch does not apply"; exit 2; }
-cd /verif && VERIF_EVIDENCE_DIR=/tmp/mutant-evidence python3 check.py run $PROP $TIER > /tmp/mutant_out.txt 2>&1
-RC=$?
-git -C /repo checkout -- .
-grep -E "^(VIOLATION|KNOWN-FINDING|INCONCLUSIVE|C[0-9]+ )" /tmp/mutant_out.txt | head -8
-grep -E "^  key=" /tmp/mutant_out.txt | head -8
+OUT=/tmp/mutant_out.$$.txt
+if [ -n "$TRY_MUTANT_WT" ]; then
+  WT=/tmp/trymutant-wt.$$
+  git -C /repo worktree add --detach $WT HEAD >/dev/null 2>&1 || exit 2
+  git -C $WT apply "$P" || { echo "patch does not apply"; git -C /repo worktree remove --force $WT; exit 2; }
+  cd /verif && VERIF_REPO=$WT VERIF_EVIDENCE_DIR=/tmp/mutant-evidence.$$ python3 check.py run $PROP $TIER > $OUT 2>&1
+  RC=$?
+  git -C /repo worktree remove --force $WT; rm -rf $WT /tmp/mutant-evidence.$$
+else
+  cd /repo || exit 2
+  git diff --quiet || { echo "/repo has uncommitted changes"; exit 2; }
+  git apply "$P" || { echo "patch does not apply"; exit 2; }
+  cd /verif && VERIF_EVIDENCE_DIR=/tmp/mutant-evidence.$$ python3 check.py run $PROP $TIER > $OUT 2>&1
+  RC=$?
+  git -C /repo checkout -- .
+  rm -rf /tmp/mutant-evidence.$$
+fi
+grep -E "^(VIOLATION|KNOWN-FINDING|INCONCLUSIVE|C[0-9]+ )" $OUT | head -8
+grep -E "^  key=" $OUT | head -8
+rm -f $OUT
 echo "exit=$RC"
 exit $RC
